@@ -58,11 +58,12 @@ SLOW == <<83, 108, 111, 119>>
 PVs == <<[name |-> FAST, aliases |-> {QUICK}, hide |-> FALSE], [name |-> SLOW, aliases |-> {}, hide |-> TRUE]>>
 Words == TRUE_LITERALS \cup FALSE_LITERALS \cup {FAST, QUICK, SLOW, LowerAscii(SLOW)}
 OtherCands == {<<>>, <<32>>, <<50>>, <<195, 169>>} \cup UNION {CaseVariants(w) \cup NearMisses(w) : w \in Words}
-ParserKinds == {"bool", "boolish", "falsey", "possible", "nonempty", "string", "os"}
+ParserKinds == {"bool", "boolish", "falsey", "possible", "nonempty", "string", "os", "enum", "pathbuf"}
 OtherParse(k, icase, s) ==
   CASE k = "bool" -> BoolParse(s) [] k = "boolish" -> BoolishParse(s) [] k = "falsey" -> FalseyParse(s)
     [] k = "possible" -> PossibleParse(PVs, icase, s) [] k = "nonempty" -> NonEmptyParse(s)
     [] k = "string" -> StringParse(s) [] k = "os" -> OsParse(s)
+    [] k = "enum" -> EnumParse(PVs, icase, s) [] k = "pathbuf" -> PathBufParse(s)
 
 \* declarative languages
 OtherLangOk ==
@@ -80,6 +81,12 @@ OtherLangOk ==
         [] pk = "nonempty" -> (m.k = "Ok") <=> (s # <<>> /\ IsUtf8(s))
         [] pk = "string" -> (m.k = "Ok") <=> IsUtf8(s)
         [] pk = "os" -> m = VOk(s)
+        \* the variant is the one that declares the name or alias; spelled here by its canonical name
+        [] pk = "enum" -> /\ (m.k = "Ok") <=> (IsUtf8(s) /\ \E w \in {FAST, QUICK, SLOW} :
+                                                  IF ic THEN LowerAscii(s) = LowerAscii(w) ELSE s = w)
+                          /\ (m.k = "Ok" => m.v = IF LowerAscii(s) = LowerAscii(SLOW) THEN SLOW ELSE FAST)
+                          /\ (m.k # "Ok" => m.k = "InvalidValue")
+        [] pk = "pathbuf" -> m = IF s = <<>> THEN VErr("InvalidValue") ELSE VOk(s)
 
 \* ---------------------------------------------------------------- access
 \* ids: "a" typed u8 present with two values, "b" typed str present, "c" defined absent, "zz" undefined
@@ -95,7 +102,7 @@ Init ==
           /\ (ctor = "factory" => FactoryOk(t, r)) /\ (ctor = "short" => ShortOk(t, r))
           /\ pk = "" /\ ic = FALSE /\ store = Store0
      ELSE IF Mode = "other"
-     THEN /\ pk \in ParserKinds /\ ic \in BOOLEAN /\ (ic => pk = "possible")
+     THEN /\ pk \in ParserKinds /\ ic \in BOOLEAN /\ (ic => pk \in {"possible", "enum"})
           /\ t = "u8" /\ ctor = "" /\ r = [lk |-> "unb", lo |-> NoNum, hk |-> "unb", hi |-> NoNum] /\ store = Store0
      ELSE /\ t = "u8" /\ ctor = "" /\ r = [lk |-> "unb", lo |-> NoNum, hk |-> "unb", hi |-> NoNum]
           /\ pk = "" /\ ic = FALSE /\ store = Store0
